@@ -100,6 +100,87 @@ theorem assign_spec (dst src : St) (hId : InvT dst) (hOd : InvO dst) (hmd : dst.
   have := foldIns_sorted (abs src) [] hs
   simpa using this
 
+/-! ### the same for MultiMap (`MultiMap(const MultiMap&)`, `operator=`) -/
+
+def foldInsM (xs acc : List Spec.KV) : List Spec.KV :=
+  xs.foldl (fun acc e => Spec.insertMulti e.1 e.2 acc) acc
+
+theorem insertMulti_append_last (k v : Int) (pre : List Spec.KV) (h : ∀ e ∈ pre, e.1 ≤ k) :
+    Spec.insertMulti k v pre = pre ++ [(k, v)] := by
+  induction pre with
+  | nil => rfl
+  | cons a as ih =>
+    have ha := h a (by simp)
+    have n1 : ¬ k < a.1 := by omega
+    simp only [Spec.insertMulti, n1, if_false, List.cons_append]
+    rw [ih (fun e he => h e (by simp [he]))]
+
+/-- inserting the entries of an ascending list one by one rebuilds that list, equal keys in the
+    same order -/
+theorem foldInsM_sorted (xs pre : List Spec.KV) (hs : (pre ++ xs).Pairwise (fun a b => a.1 ≤ b.1)) :
+    foldInsM xs pre = pre ++ xs := by
+  induction xs generalizing pre with
+  | nil => simp [foldInsM]
+  | cons a as ih =>
+    simp only [foldInsM, List.foldl_cons]
+    have hpre : ∀ e ∈ pre, e.1 ≤ a.1 := by
+      intro e he
+      rw [List.pairwise_append] at hs
+      exact hs.2.2 e he a (by simp)
+    rw [insertMulti_append_last a.1 a.2 pre hpre]
+    have := ih (pre ++ [a]) (by simpa using hs)
+    simp only [foldInsM] at this
+    rw [this]; simp
+
+theorem assign_loopM (l : List Spec.KV) (d : St × Nat) (hI : InvT d.1) (hO : InvO d.1) (hm : d.1.multi = true) :
+    let r := l.foldl (fun (d : St × Nat) e =>
+      let r := d.1.insertRoot e.1 e.2 0
+      (r.1, d.2 + r.2.cmps)) d
+    InvT r.1 ∧ InvO r.1 ∧ r.1.multi = true ∧ abs r.1 = foldInsM l (abs d.1) := by
+  induction l generalizing d with
+  | nil => exact ⟨hI, hO, hm, rfl⟩
+  | cons e es ih =>
+    simp only [List.foldl_cons]
+    have h1 := insertRoot_invT d.1 hI e.1 e.2 0
+    have h2 := insertRoot_invO d.1 hO e.1 e.2 0
+    have h3 : (d.1.insertRoot e.1 e.2 0).1.multi = true := by
+      obtain ⟨_, _, h, _⟩ := insertRoot_t d.1 e.1 e.2 0; rw [h, hm]
+    have h4 := insertRoot_abs d.1 hI e.1 e.2 0
+    rw [hm] at h4
+    simp only [if_true] at h4
+    have := ih ((d.1.insertRoot e.1 e.2 0).1, d.2 + (d.1.insertRoot e.1 e.2 0).2.cmps) h1 h2 h3
+    simp only at this ⊢
+    refine ⟨this.1, this.2.1, this.2.2.1, ?_⟩
+    rw [this.2.2.2, h4]; rfl
+
+/-- **Copy of a MultiMap**: after `dst = src` (two different MultiMaps; the copy constructor is the
+    same loop from a fresh container) `dst` holds exactly the entries of `src`, equal keys in the
+    same order. -/
+theorem assign_specM (dst src : St) (hId : InvT dst) (hOd : InvO dst) (hmd : dst.multi = true)
+    (hIs : InvT src) (hOs : InvO src) :
+    InvT (dst.assignFrom src).1 ∧ InvO (dst.assignFrom src).1 ∧ abs (dst.assignFrom src).1 = abs src ∧
+      (dst.assignFrom src).1.multi = true := by
+  unfold St.assignFrom
+  have hc : ∃ r, step dst .clear = some r := ⟨_, rfl⟩
+  obtain ⟨r, hc⟩ := hc
+  rw [hc]
+  simp only
+  have h1 := (step_invT dst hId .clear _ hc)
+  have h2 := step_invO dst hId hOd .clear _ hc
+  have h0 : abs r.1 = [] := by
+    simp only [step, Option.some.injEq] at hc; rw [← hc]; rfl
+  have := assign_loopM src.iter (r.1, 0) h1.1 h2 (by rw [h1.2, hmd])
+  simp only at this
+  refine ⟨this.1, this.2.1, ?_, this.2.2.1⟩
+  rw [this.2.2.2, iter_eq_abs src hOs, h0]
+  have hs : (([] : List Spec.KV) ++ abs src).Pairwise (fun (a b : Spec.KV) => a.1 ≤ b.1) := by
+    have := hIs.sortedW
+    unfold SortedW at this
+    simp only [List.nil_append, abs, kv, List.pairwise_map]
+    exact this
+  have := foldInsM_sorted (abs src) [] hs
+  simpa using this
+
 /-- the loop of `Map::insert(const Map&)`: each entry is inserted with the iterator returned for
     the previous one as hint -/
 theorem insertAll_loop (l : List Spec.KV) (acc : St × Nat × Nat) (hI : InvT acc.1) (hO : InvO acc.1)
